@@ -3,6 +3,7 @@ use serde_json::Value as J;
 
 pub mod c01;
 pub mod c03;
+pub mod c04;
 pub mod c05;
 pub mod c06;
 pub mod c09;
@@ -22,6 +23,7 @@ pub fn lookup(id: &str) -> Option<(RunFn, ReplayFn)> {
     match id {
         "C01" => Some((c01::run, c01::replay)),
         "C03" => Some((c03::run, c03::replay)),
+        "C04" => Some((c04::run, c04::replay)),
         "C05" => Some((c05::run, c05::replay)),
         "C06" => Some((c06::run, c06::replay)),
         "C07" => Some((sqlprops::run_c07, sqlprops::replay_c07)),
